@@ -289,7 +289,7 @@ func mark(s, prefix string) string {
 	return ""
 }
 
-var hopNames = []string{"Connection", "X-Hop-A", "Keep-Alive", "Proxy-Authenticate",
+var hopNames = []string{"Connection", "X-Hop-A", "X-Hop-B", "Keep-Alive", "Proxy-Authenticate",
 	"Proxy-Authentication-Info", "Upgrade", "Te", "Proxy-Connection", "Transfer-Encoding"}
 
 var cacheOwn = map[string]bool{"Age": true, "X-Httpcache-Status": true, "X-From-Cache": true}
@@ -362,7 +362,7 @@ func (r *runner) doReqX(st *Step, x int) {
 		"st": 0, "label": "", "nlab": 0, "fc": "", "tok": "", "tag": "", "age": None, "nage": 0,
 		"bodyok": 1, "bodyerr": 0, "e2eok": 1, "hopin": 0, "extra": []string{}, "missing": []string{}, "fgcalls": fg,
 		"requnch": b2i(reflect.DeepEqual(req.Header, hsnap) && req.URL.String() == usnap),
-		"h": w.headerMeaning(http.Header{}), "errs": "", "proto": "", "sameproto": 1, "clen": -1}
+		"h": w.headerMeaning(http.Header{}), "errs": "", "proto": "", "sameproto": 1, "clen": -1, "scrib": 0}
 	if panicked != "" {
 		ev["errs"] = panicked
 	}
@@ -497,6 +497,17 @@ func (r *runner) doReqX(st *Step, x int) {
 		} else {
 			ev["stsame"] = 1
 		}
+		if sr != nil && held == nil && berr == nil && req.Method != http.MethodHead {
+			// trailer fields are part of the message (RFC 9110 6.5): once the body has been read they are there,
+			// exactly when and as the origin sent them
+			got := resp.Trailer.Values("X-Trail")
+			if sr.trailer && !reflect.DeepEqual(got, []string{"trailer-value"}) || !sr.trailer && len(resp.Trailer) > 0 {
+				ev["e2eok"] = 0
+				if ms, ok := ev["missing"].([]string); ok {
+					ev["missing"] = append(ms, "trailer:X-Trail")
+				}
+			}
+		}
 		hop := 0
 		for _, hn := range hopNames {
 			for _, v := range resp.Header.Values(hn) {
@@ -506,6 +517,9 @@ func (r *runner) doReqX(st *Step, x int) {
 			}
 		}
 		ev["hopin"] = hop
+		// the response is the caller's: it may write to its header. No other response may ever show that.
+		ev["scrib"] = b2i(len(resp.Header.Values("X-Caller-Scribble")) > 0)
+		resp.Header.Set("X-Caller-Scribble", strconv.Itoa(x))
 		r.mu.Lock()
 		r.replies = append(r.replies, &replyRec{x: x, hdr: resp.Header, snap: resp.Header.Clone(), req: req, rsnp: hsnap, rurl: usnap,
 			held: held, want: body})
